@@ -600,11 +600,16 @@ def np_sum(a, axis=None):
     if isinstance(a, Sym):
         return a
     if a.ndim == 1 and axis in (None, 0, -1):
+        if not isinstance(a.shape[0], Sym) and a.shape[0] <= 8:
+            tot = 0
+            for k in range(a.shape[0]):
+                tot = tot + a.fn(k)
+            return tot
         return sumtheory.ssum(c, a)
     if a.ndim == 2 and axis is None:
         raise OutsideSubset("full reduction of a 2-d symbolic array")
     count, length, col = _columns(a, axis)
-    return SArr((count,), lambda j: sumtheory.ssum(c, col(j)), "real")
+    return SArr((count,), lambda j: np_sum(col(j)), "real")
 
 
 def np_mean(a, axis=None):
@@ -727,7 +732,13 @@ def tolerant_compare(f, l, r, rel=1e-9, abs_=1e-12):
             la, ra = np.asarray(l, dtype=float), np.asarray(r, dtype=float)
         except (TypeError, ValueError):
             return f(l, r)
-        close = np.isclose(la, ra, rtol=rel, atol=abs_, equal_nan=True)
+        scale = max(float(np.max(np.abs(la))) if la.size else 0.0, float(np.max(np.abs(ra))) if ra.size else 0.0)
+        if la.shape != ra.shape:
+            try:
+                np.broadcast_shapes(la.shape, ra.shape)
+            except ValueError:
+                return f is operator.ne
+        close = np.isclose(la, ra, rtol=rel, atol=max(abs_ * min(1.0, scale), rel * scale * 1e-3) if scale else abs_, equal_nan=True)
         if f is operator.eq:
             return bool(np.all(close))
         if f is operator.ne:
@@ -1363,6 +1374,7 @@ def py_enumerate(interp, it, start=0):
 @model(np.column_stack)
 def np_column_stack(interp, cols):
     cols = [to_sarr(c) for c in cols]
+    cols = [c if isinstance(c, SArr) else SArr((1,), (lambda i, c=c: c), "real") for c in cols]
     n = cols[0].shape[0]
     k = len(cols)
 
@@ -1385,6 +1397,8 @@ def _np_fill(value):
     def f(interp, shape, dtype=float, **k):
         if isinstance(shape, list):
             shape = tuple(shape)
+        if shape == ():
+            return value
         if not isinstance(shape, tuple):
             shape = (shape,)
         dt = "int" if dtype in (int, np.int64, np.int32, "int") else ("bool" if dtype in (bool, np.bool_) else "real")
@@ -1480,6 +1494,12 @@ def trapezoid_spec(y, x=None, axis=-1):
             xf = x.copy().fn if isinstance(x, SArr) else (lambda k: sym.concrete_select(np.asarray(x), (k,)))
             terms = SArr((n - 1,), lambda k: (xf(k + 1) - xf(k)) * (yf(k) + yf(k + 1)) / 2, "real")
         return sumtheory.ssum(c, terms)
+    if isinstance(y, SArr) and y.ndim == 2:
+        # along `axis`, independently for every index of the other axis (x: 1-d along that axis, or None)
+        count, length, col = _columns(y, axis)
+        if isinstance(x, SArr) and x.ndim != 1:
+            raise OutsideSubset("trapezoid with an n-d coordinate array")
+        return SArr((count,), lambda j: trapezoid_spec(col(j), x, 0), "real")
     raise OutsideSubset("trapezoid of a %s-d symbolic array" % getattr(y, "ndim", "?"))
 
 
@@ -1586,3 +1606,35 @@ def py_range(interp, *args):
     if len(args) == 2:
         return SRange(args[0], args[1])
     raise OutsideSubset("range with symbolic step")
+
+
+@model(builtins.map)
+def py_map(interp, f, *its):
+    seqs = [list(concrete_iter(interp, it)) for it in its]
+    return [interp.call_value(f, list(args), {}) for args in zip(*seqs)]
+
+
+def _cmp_model(op):
+    def f(interp, a, b):
+        return sym.elementwise(lambda x, y: op(x, y), [a, b], "bool")
+    return f
+
+
+for _npf, _op in ((np.less, operator.lt), (np.less_equal, operator.le), (np.greater, operator.gt),
+                  (np.greater_equal, operator.ge), (np.equal, operator.eq), (np.not_equal, operator.ne)):
+    _MODELS[_npf] = _cmp_model(_op)
+    _MODELS[_npf].__name__ = "np." + _npf.__name__
+
+
+@model(np.hypot)
+def np_hypot(interp, a, b):
+    return sym.elementwise(lambda x, y: Sym(UF["sqrt"](sym.to_real(lift(x * x + y * y)))), [a, b], "real")
+
+
+@model(np.size)
+def np_size(interp, a, *k):
+    if isinstance(a, Sym):
+        return 1
+    if isinstance(a, SArr):
+        return a.size
+    return np.size(a, *k)
